@@ -178,6 +178,7 @@ def check_main(check_id, tier, seed, jobs=None, keep=False):
 
 
 def conclude(mod, tier, seed, plan, results, shard_problems, skipped, wall):
+    OUT = os.environ.get('RV_OUT') or VERIF     # self-tests against a scratch copy write their output elsewhere
     kf = load_known_findings()
     known = {(f['property'], f['key']): f for f in kf.get('findings', [])}
     evaluations = 0
@@ -226,7 +227,7 @@ def conclude(mod, tier, seed, plan, results, shard_problems, skipped, wall):
     lines = []
     violations = 0
     known_seen = {}
-    os.makedirs(os.path.join(VERIF, 'replays'), exist_ok=True)
+    os.makedirs(os.path.join(OUT, 'replays'), exist_ok=True)
     for key, lst in sorted(witnesses_by_key.items(), key=lambda kv: str(kv[0])):
         r, w = min(lst, key=lambda rw: (len(dumps(rw[1])), rw[0]['gen'], rw[0]['idx']))
         if (mod.ID, key) in known:
@@ -235,7 +236,7 @@ def conclude(mod, tier, seed, plan, results, shard_problems, skipped, wall):
                          % (mod.ID, known[(mod.ID, key)]['what'], key, len(lst)))
             continue
         violations += len(lst)
-        rp = os.path.join(VERIF, 'replays', '%s-%s.json' % (mod.ID, short_hash([key, r['gen'], r['idx'], seed])))
+        rp = os.path.join(OUT, 'replays', '%s-%s.json' % (mod.ID, short_hash([key, r['gen'], r['idx'], seed])))
         with open(rp, 'w') as fh:
             fh.write(dumps({'property': mod.ID, 'tier': tier, 'seed': seed, 'gen': r['gen'], 'idx': r['idx'],
                             'mechanism': key, 'occurrences': len(lst), 'witness': w,
@@ -299,8 +300,8 @@ def conclude(mod, tier, seed, plan, results, shard_problems, skipped, wall):
         evidence['inconclusive_reasons'] = reasons
     else:
         evidence['verdict'] = 'violated' if violations else 'held-on-explored'
-    os.makedirs(os.path.join(VERIF, 'evidence'), exist_ok=True)
-    with open(os.path.join(VERIF, 'evidence', '%s.json' % mod.ID), 'w') as fh:
+    os.makedirs(os.path.join(OUT, 'evidence'), exist_ok=True)
+    with open(os.path.join(OUT, 'evidence', '%s.json' % mod.ID), 'w') as fh:
         fh.write(dumps(evidence, indent=1))
 
     for ln in lines:
